@@ -9,6 +9,7 @@ import (
 	"os"
 	"time"
 	"runtime/debug"
+	"runtime/pprof"
 
 	"verifmc/checks"
 	"verifmc/engine"
@@ -20,6 +21,21 @@ func main() {
 		os.Exit(2)
 	}
 	debug.SetGCPercent(400)
+	// Objects that own a sync.Pool (every websocket.Stream does) stay reachable from the runtime's pool registry for
+	// two collections after their last use; with a generous GC percentage the heap of a long run that creates
+	// millions of them then doubles from collection to collection. A soft limit makes the collector run often
+	// enough near it for those generations to be dropped.
+	debug.SetMemoryLimit(3 << 30)
+	if f := os.Getenv("VERIF_HEAPPROF"); f != "" {
+		// diagnostic: write a heap profile after 30 s
+		go func() {
+			time.Sleep(30 * time.Second)
+			if w, err := os.Create(f); err == nil {
+				pprof.WriteHeapProfile(w)
+				w.Close()
+			}
+		}()
+	}
 	// Make the Go runtime create its own netpoller descriptors (epoll + eventfd, created lazily by the
 	// first timer) now, before any check reasons about descriptor numbers.
 	time.Sleep(time.Millisecond)
